@@ -47,7 +47,7 @@ public:
 			return *this;
 		}
 
-		bool operator~() const noexcept { return ~s[index]; }
+		bool operator~() const noexcept { return !s.test(index); }
 
 		operator bool() const noexcept { return s.test(index); }
 
